@@ -9,7 +9,7 @@ LEVEL = dict(
     rule_text="the lexical-table obligations of C01 (names, strings, nesting, hex, numbers; exhaustive over 256 byte values) plus: "
               "Content::encode writes an unconditional separator after every operand and between operations; the operator alphabet "
               "of the parser is disjoint from every byte an operand spelling can start with (keywords excepted); every operator the "
-              "parser gives special syntax (BI/ID/EI) is treated specially by the encoder",
+              "parser gives special syntax (BI/ID/EI) is treated specially by the encoder; the escape decision of write_string is order-insensitive (or the list is sorted first); i64/f32 are converted from the whole matched span, sign included",
     explanation="Decides: encoded operands and operators cannot fuse or be tokenised differently by lopdf's content parser, for any "
                 "byte content; inline images are re-encoded with the syntax the parser requires. Does not decide: operand equality "
                 "after the cycle.",
